@@ -164,7 +164,13 @@ Definition replay_one (s0 : store) (w : walentry) : replay_res :=
           let keyup st := mkStore (forest st) (N.max (lastKey st) (w_cell w)) (ptRoot st) (nextFree st) (nextLSN st) in
           match tree_insert ML MI PS MV n (w_cell w) (w_lsn w) (w_val w) (nextFree s) with
           | TOk (t', nf) =>
-              RCont (keyup (mkStore (replace_root (w_page w) t' (forest s)) (lastKey s) (ptRoot s) nf (nextLSN s)))
+              let s1 := keyup (mkStore (replace_root (w_page w) t' (forest s)) (lastKey s) (ptRoot s) nf (nextLSN s)) in
+              if N.eqb (t_off t') (w_page w) then RCont s1
+              else match redo_root_move s1 (w_page w) (t_off t') (w_lsn w) with
+                   | (s2, Ok _) => RCont s2
+                   | (s2, Err e) => RFail s2 e
+                   | (s2, Panic) => RPanic
+                   end
           | TErr KeyExists => RCont (keyup s)
           | TErr e => RFail s (match of_tres (A := unit) (TErr e) with Err x => x | _ => EOther end)
           end
